@@ -379,6 +379,8 @@ func (v *Verifier) contractWrites(c *Ctx, fc *FuncContract) (map[string]bool, bo
 				ws[v.heapKeyByName(c, nil, e.Args[0])] = true
 			case "alloc":
 				ws[aliveKey] = true
+			case "object":
+				return ws, true
 			case "keys", "mapof":
 				// resolved at havoc time; conservatively all map heaps
 				for k := range v.heapKeys {
